@@ -58,9 +58,68 @@ def main():
         oc.notes.append("AST fingerprint changed for: %s (sampling escalated)" % ", ".join(changed))
     cov = common.LineCov()
     cov.start()
+    # watchdog: a tool call that never returns (a loop that lost its exit) is a failure of the code under test, not of the harness.
+    # The budget is several times the normal duration of the tier; when it expires the innermost frame of /repo is reported.
+    import signal
+    budget = int(os.environ.get("PFF_RUN_BUDGET_S", "900" if tier == "quick" else "21600"))
+
+    def on_alarm(signum, frame):
+        where, f = [], frame
+        repo_root = os.path.realpath(common.REPO)
+        inner = None
+        while f is not None:
+            fn = os.path.realpath(f.f_code.co_filename)
+            if fn.startswith(repo_root) and inner is None:
+                inner = f
+            where.append("%s:%d %s" % (os.path.relpath(fn, repo_root) if fn.startswith(repo_root) else os.path.basename(fn), f.f_lineno, f.f_code.co_name))
+            f = f.f_back
+        loc = {}
+        if inner is not None:
+            for k, v in list(inner.f_locals.items())[:25]:
+                try:
+                    loc[k] = repr(v)[:200]
+                except Exception:
+                    loc[k] = "<unprintable>"
+        # (a harness site may swallow the exception and go on to the next call: fire again soon, and remember the first report)
+        try:
+            signal.alarm(10)
+        except (ValueError, AttributeError):
+            pass
+        hang_payload = {
+            "input": {"seed": seed, "tier": tier, "stack_innermost_first": where[:12], "locals_of_innermost_repo_frame": loc},
+            "what": "the run did not finish within %d s (normal duration: a small fraction of that): a call into the code under test "
+                    "does not terminate%s" % (budget, "" if inner is not None else " (no /repo frame on the stack: possibly the harness or the model driver)")}
+        hangs.append(hang_payload)
+        if len(hangs) >= 3:
+            # the harness went on and calls keep hanging: give the verdict now
+            v = dict(hangs[0])
+            v.update({"property": pid, "tier": tier, "seed": seed, "kind": "concrete-failing-input (non-termination)"})
+            rp = common.write_replay(pid, seed, 0, v)
+            try:
+                common.write_evidence(pid, tier, seed, lean, oc, time.time() - t0, mod.TRUSTED_BASE, mod.ASSUMPTIONS, mod.RULE, 1,
+                                      "cd lean && lake build %s" % " ".join(mod.LEAN_MODULES))
+            except Exception:
+                pass
+            say("%s tier=%s seed=%d: a call into the code under test does not terminate (watchdog fired %d times)" % (pid, tier, seed, len(hangs)))
+            say("VIOLATION property=%s replay=%s" % (pid, rp))
+            sys.stdout.flush()
+            os._exit(1)
+        raise common.PropertyFailure(hang_payload)
+    hangs = []
     try:
-        mod.run(oc, tier=tier, seed=seed,
-                model_available=lean.build_ok, escalate=escalate)
+        signal.signal(signal.SIGALRM, on_alarm)
+        signal.alarm(budget)
+    except (ValueError, AttributeError):
+        pass
+    try:
+        try:
+            mod.run(oc, tier=tier, seed=seed,
+                    model_available=lean.build_ok, escalate=escalate)
+        finally:
+            try:
+                signal.alarm(0)
+            except (ValueError, AttributeError):
+                pass
     except Infra as e:
         say("INFRA: %s" % e)
         sys.exit(2)
@@ -70,6 +129,8 @@ def main():
         say("INFRA: the harness raised an unexpected exception (no verdict):")
         say(traceback.format_exc())
         sys.exit(2)
+    if hangs and hangs[0] not in oc.violations:
+        oc.violations.insert(0, hangs[0])
 
     cov.stop()
     try:
